@@ -370,7 +370,26 @@ func c12Gen(rng *verifsim.RNG, idx int, tier string) *Plan {
 	horizon := rng.Dur(4*time.Second, 30*time.Second)
 	p.Horizon = int64(horizon)
 
-	switch rng.Pick(3, 2, 5, 2, 3) {
+	switch rng.Pick(3, 2, 5, 2, 3, 2) {
+	case 5:
+		// a peer RA whose receive completes just as the connection generation is
+		// being cancelled (link down, or the stop): it was received, so it is judged
+		p.Class = "race-with-teardown"
+		c12Own(rng, s)
+		t0 := int64(rng.Dur(time.Second, 10*time.Second)) + jitter(rng)
+		peer := c12Peer(rng)
+		peer.M = !boolOf(s.Managed, false) // certainly inconsistent
+		p.Faults = append(p.Faults, Fault{Seam: "read.post", From: t0 - 1, Hold: "hr"})
+		p.Actions = append(p.Actions, Action{At: t0, Kind: "ra", If: "eth0", Src: "fe80::5:1", RA: peer})
+		if rng.Bool(0.5) {
+			p.Actions = append(p.Actions, Action{At: t0 + nsMs, Kind: "link", If: "eth0", Oper: "down"})
+			p.Horizon = t0 + 3*nsSec
+		} else {
+			p.Actions = append(p.Actions, Action{At: t0 + nsMs, Kind: "signal", Sig: []string{"SIGTERM", "SIGHUP"}[rng.Intn(2)]})
+			p.Horizon = t0 + 2*nsSec
+		}
+		p.Actions = append(p.Actions, Action{At: t0 + 2*nsMs, Kind: "release", Hold: "hr"})
+		return p
 	case 4:
 		// our own RA changes while peers keep talking: a wildcard prefix whose
 		// expansion follows the interface's addresses, deprecated stanzas counting
